@@ -42,8 +42,9 @@ Init == /\ score \in [Nodes -> 0..MaxScore]
         /\ nodes = <<>> /\ mon = ZMonInit([x |-> 0]) /\ bad = {} /\ hist = <<>> /\ nops = 0
 
 Remove(l, n) == SelectSeq(l, LAMBDA x : x # n)
-AddNode(n) == /\ nops < MaxOps /\ n \notin SeqSet(nodes)
-              /\ nodes' = Append(nodes, n)
+(* add_node of a node already present is a no-op (`if node not in self.nodes`) *)
+AddNode(n) == /\ nops < MaxOps
+              /\ nodes' = IF n \in SeqSet(nodes) THEN nodes ELSE Append(nodes, n)
               /\ hist' = Append(hist, <<"add", n>>)
 RemoveNode(n) == /\ nops < MaxOps /\ n \in SeqSet(nodes)
                  /\ nodes' = Remove(nodes, n)
